@@ -1,7 +1,5 @@
-From Coq Require Import List Bool Arith Lia.
-Import ListNotations.
+From InfOCF Require Import Core Tol Form.
 (* C10: precedence-climbing parser (shape of ANTLR's generated formula(_p)) vs the documented stratified grammar *)
-Inductive form := FTop | FBot | FVar (i:nat) | FNot (f:form) | FAnd (f g:form) | FOr (f g:form).
 Inductive tok := TId (a:form) | TLP | TRP | TNot | TAnd | TOr | TOther.
 
 (* ---- specification: negation > ',' > ';', both left associative, parentheses ---- *)
